@@ -7,6 +7,8 @@ type nat =
 | O
 | S of nat
 
+val option_map : ('a1 -> 'a2) -> 'a1 option -> 'a2 option
+
 type ('a, 'b) sum =
 | Inl of 'a
 | Inr of 'b
@@ -231,6 +233,8 @@ val firstn : nat -> 'a1 list -> 'a1 list
 val skipn : nat -> 'a1 list -> 'a1 list
 
 val seq : nat -> nat -> nat list
+
+val list_sum : nat list -> nat
 
 type ascii =
 | Ascii of bool * bool * bool * bool * bool * bool * bool * bool
@@ -1173,6 +1177,134 @@ val limit_ok : lins list -> bool
 val frame_ok : z -> z -> z -> bool
 
 val mov_unsafe_ok : z -> binstr -> mins list -> bool
+
+val acell0 : z -> z
+
+val axi : z -> z
+
+val axb : z -> z
+
+val atmp : z -> z
+
+val ainp : z -> z
+
+type amap1 = (z * expr) list
+
+val look : z -> amap1 -> expr option
+
+val memz : z -> z list -> bool
+
+type sst1 = { s_ci : amap1; s_cb : amap1; s_d : z list; s_t : amap1;
+              s_nz : expr list; s_n : z }
+
+val cell_i : sst1 -> z -> expr
+
+val cell_b : sst1 -> z -> expr
+
+val set_ci : sst1 -> amap1 -> sst1
+
+val set_cb : sst1 -> amap1 -> sst1
+
+val set_t : sst1 -> amap1 -> sst1
+
+val set_n : sst1 -> z -> sst1
+
+val add_nz : sst1 -> expr -> sst1
+
+val pcanon : z -> expr -> expr
+
+val tv_same : z -> expr -> expr -> bool
+
+val psubst : z -> (z -> expr) -> expr -> expr
+
+type sev =
+| SOut of expr
+| SIn
+
+val is_simple : instr -> bool
+
+val split_simple : instr list -> instr list * instr list
+
+val sym_ir_step : z -> sst1 -> instr -> sst1 * sev list
+
+val sym_ir : z -> instr list -> sst1 -> sst1 * sev list
+
+val is_arith : binstr -> bool
+
+val imm_ok : z -> z -> bool
+
+val sym_read : z -> sst1 -> loc -> (expr * sst1) option
+
+val sym_write : sst1 -> loc -> expr -> sst1
+
+val sym_binop :
+  z -> (expr -> expr -> expr) -> sst1 -> loc -> loc -> loc -> sst1 option
+
+val sym_bc_step : z -> sst1 -> binstr -> (sst1 * sev list) option
+
+val sym_bc : z -> binstr list -> sst1 -> (sst1 * sev list) option
+
+val ev_eq : z -> sev list -> sev list -> bool
+
+val sym_region : z -> instr list -> binstr list -> sst1 -> sst1 option
+
+val code_at : binstr list -> z -> binstr option
+
+val at_head : z option -> z -> bool
+
+val seg_from : binstr list -> z -> z -> z option -> binstr list
+
+val bc_segment : binstr list -> z -> z -> z option -> binstr list
+
+type facts = { f_c : amap1; f_d : z list; f_t : amap1; f_nz : expr list }
+
+type cert =
+| CLoop of z * z * facts
+| CIf of facts
+
+val st_of_facts : facts -> sst1
+
+val agree : z -> sst1 -> z -> bool
+
+val keys : sst1 -> z list
+
+val atom_ok : z -> sst1 -> z -> bool
+
+val atom_val : sst1 -> z -> expr
+
+val subst_ok : z -> sst1 -> expr -> bool
+
+val subst_st : z -> sst1 -> expr -> expr
+
+val is_nz_const : z -> expr -> bool
+
+val nonzero_in : z -> sst1 -> expr -> bool
+
+val entails : z -> sst1 -> facts -> bool
+
+val is_const : expr -> bool
+
+val moved : z -> sst1 -> z -> sst1
+
+val all_agree : z -> sst1 -> bool
+
+val is_nil : 'a1 list -> bool
+
+val next_head : bool -> instr list -> cert list -> z option
+
+val after_move : z -> binstr list -> z -> sst1 -> z -> (z * sst1) option
+
+val tv_block :
+  nat -> z -> bool -> binstr list -> instr list -> z -> z -> sst1 -> cert
+  list -> ((z * sst1) * cert list) option
+
+val st0 : sst1
+
+val tvsize : instr -> nat
+
+val isize : instr list -> nat
+
+val tv_check : z -> bool -> block -> binstr list -> cert list -> bool
 
 type kind =
 | KPrintIr
